@@ -48,6 +48,10 @@ func NewEvaluator(paramsBR, paramsLWE rlwe.ParameterProvider) (eval *Evaluator) 
 // Returns a map[slot_index] -> BlindRotate(ct[slot_index])
 func (eval *Evaluator) Evaluate(ct *rlwe.Ciphertext, testPolyWithSlotIndex map[int]*ring.Poly, BRK BlindRotationEvaluationKeySet) (res map[int]*rlwe.Ciphertext, err error) {
 
+	if ct.Degree() != 1 {
+		return nil, fmt.Errorf("cannot Evaluate: ct must be of degree 1")
+	}
+
 	bRLWEMod2N := eval.poolMod2N[0]
 	aRLWEMod2N := eval.poolMod2N[1]
 
